@@ -44,8 +44,9 @@ def setup_sym(R):
     hw.setup_wallet_sym(R)
 
 
-def generate(E, R, testnet, ln):
-    w, k, c = hw.mk_wallet(E, R, testnet)
+def generate(E, R, testnet, ln, with_text=True):
+    """with_text=False: a wallet built from a seed or an extended key has no mnemonic / passphrase to echo (both None)"""
+    w, k, c = hw.mk_wallet(E, R, testnet, with_text=with_text)
     account = E.bv("account", 31)
     start, end = hw.interval(E, ln)
     data = E.run(w.generate, account, (start, end))
@@ -58,11 +59,20 @@ def generate(E, R, testnet, ln):
     # json() of that mapping
     js = E.run(w.json, data)
     if E.symbolic:
-        E.check(isinstance(js, hw.JsonDump) and js.obj is data, "json(data) is json.dumps of exactly that mapping")
+        E.check(isinstance(js, hw.JsonDump) and (js.obj is data or _same(js.obj, data)), "json(data) is json.dumps of exactly that mapping")
     else:
         import json
         E.check(json.loads(js) == data, "JSON rendering parses back to the same data")
     return "ok"
+
+
+def _same(a, b):
+    """structural identity of two JSON-able values built from the same leaves (keys, order of rows, None entries)"""
+    if isinstance(a, dict) and isinstance(b, dict):
+        return list(a.keys()) == list(b.keys()) and all(_same(a[k], b[k]) for k in a)
+    if isinstance(a, (list, tuple)) and isinstance(b, (list, tuple)):
+        return len(a) == len(b) and all(_same(x, y) for x, y in zip(a, b))
+    return a is b or (type(a) is type(b) and isinstance(a, (str, int, bool, type(None))) and a == b)
 
 
 def generate_twice(E, R, testnet, ln1, ln2, same_account):
@@ -133,6 +143,9 @@ def wasabi(E, R, testnet):
 
 def cases(tier):
     cs = []
+    for t in (False, True):
+        cs.append(Case("generate[testnet=%s,len=1,no mnemonic]" % t, "generate", dict(testnet=t, ln=1, with_text=False), weight=20, max_paths=5000,
+                       need=("json(data) is json.dumps of exactly that mapping",)))
     for t in (False, True):
         for ln in range(0, (3 if tier == "quick" else 6) + 1):
             cs.append(Case("generate[testnet=%s,len=%d]" % (t, ln), "generate", dict(testnet=t, ln=ln), weight=10 * (ln + 1), max_paths=5000,
